@@ -239,6 +239,15 @@ def apply_ops(text, ops, keywords, donor, max_len=16384):
     return text
 
 
+def cut_at_token(text, k):
+    """prefix of `text` ending after its (k mod n)-th token: the systematic version of the truncation operator,
+    applied to unmodified corpus files (every end-of-input check of the readers is one position away)"""
+    tb = [m.end() for m in _TOK.finditer(text)]
+    if not tb:
+        return text
+    return text[:tb[k % len(tb)]]
+
+
 def random_bytes_text(a, n):
     rnd = random.Random(a)
     return "".join(chr(rnd.randrange(256)) for _ in range(n % 512))
